@@ -592,3 +592,167 @@ func (c *Ctx) checkListSpine() {
 		fmt.Sprintf("%d calls of a function to itself examined, %d of them walk the spine of a list", selfCalls, n),
 		fmt.Sprintf("only %d self-recursive calls found", selfCalls))
 }
+
+// C01-DEPTH: the recursive-descent parser counts how deep it is.
+//
+// The parser calls itself once or twice per nesting level of the text, and the
+// text is whatever the host was handed: a megabyte of opening parentheses is a
+// source text like any other, and without a bound the Go stack decides when it
+// ends -- fatally. The obligation: the methods of the parser that call each
+// other in a cycle (found in the static call graph) all pass through a hub,
+// and the hub compares a counter -- an integer field of the parser -- with a
+// bound before it calls back into the cycle, returns an error on the far side,
+// and counts on the near side. (The generator and the printers recurse on
+// what the parser produced; the depth of that is the depth the parser let
+// through. Structures that a running program nests by itself are not covered.)
+func (c *Ctx) checkParserDepth() {
+	parserT := c.named("Parser")
+	pe := c.mustFn("C01-DEPTH", "Parser.ParseExpression")
+	if parserT == nil || pe == nil {
+		return
+	}
+	var members []*ssa.Function
+	for _, f := range c.zygoFuncs() {
+		if f.Parent() == nil && isMethodOf(f, parserT) {
+			members = append(members, f)
+		}
+	}
+	isMember := map[*ssa.Function]bool{}
+	for _, f := range members {
+		isMember[f] = true
+	}
+	calls := func(f *ssa.Function) []*ssa.Function {
+		var out []*ssa.Function
+		seen := map[*ssa.Function]bool{}
+		for _, g := range withClosures(f) {
+			eachInstr(g, func(b *ssa.BasicBlock, i int, in ssa.Instruction) {
+				if ci, ok := in.(ssa.CallInstruction); ok {
+					if h := ci.Common().StaticCallee(); h != nil && isMember[h] && !seen[h] {
+						seen[h] = true
+						out = append(out, h)
+					}
+				}
+			})
+		}
+		return out
+	}
+	reach := func(from *ssa.Function, without *ssa.Function) map[*ssa.Function]bool {
+		seen := map[*ssa.Function]bool{}
+		work := []*ssa.Function{from}
+		for len(work) > 0 {
+			f := work[len(work)-1]
+			work = work[:len(work)-1]
+			for _, g := range calls(f) {
+				if g == without || seen[g] {
+					continue
+				}
+				seen[g] = true
+				work = append(work, g)
+			}
+		}
+		return seen
+	}
+	// the cycle the hub is on
+	onCycle := reach(pe, nil)[pe]
+	if !onCycle {
+		c.undecided("C01-DEPTH", "Parser.ParseExpression", "recursive descent", pe.Pos(), "the expression parser is not on a cycle of the parser's static call graph any more; the hub of the recursion has to be found again")
+		return
+	}
+	// every other cycle among the parser's methods passes through the hub
+	var other []string
+	for _, f := range members {
+		if f != pe && reach(f, pe)[f] {
+			other = append(other, fnName(f))
+		}
+	}
+	c.check(len(other) == 0, "C01-DEPTH", "Parser", "every recursion of the parser passes through ParseExpression", pe.Pos(),
+		"without the expression parser the parser's methods do not call each other in a cycle",
+		"these methods of the parser recurse without passing through the expression parser, where the depth is counted: "+strings.Join(other, ", "))
+	// the hub counts
+	intField := func(addr ssa.Value) *types.Var {
+		fa, ok := addr.(*ssa.FieldAddr)
+		if !ok {
+			return nil
+		}
+		fld := faField(fa)
+		if fld == nil {
+			return nil
+		}
+		if b, ok := fld.Type().Underlying().(*types.Basic); !ok || b.Info()&types.IsInteger == 0 {
+			return nil
+		}
+		if pt, ok := fa.X.Type().Underlying().(*types.Pointer); ok {
+			if nm, ok := pt.Elem().(*types.Named); ok && nm == parserT {
+				return fld
+			}
+		}
+		return nil
+	}
+	loadOf := func(v ssa.Value) *types.Var {
+		if u, ok := v.(*ssa.UnOp); ok && u.Op == token.MUL {
+			return intField(u.X)
+		}
+		if cv, ok := v.(*ssa.Convert); ok {
+			if u, ok := cv.X.(*ssa.UnOp); ok && u.Op == token.MUL {
+				return intField(u.X)
+			}
+		}
+		return nil
+	}
+	var tested *types.Var
+	var testBlock *ssa.BasicBlock
+	for _, b := range pe.Blocks {
+		cond, tb, fb := condBranch(b)
+		bo, ok := cond.(*ssa.BinOp)
+		if !ok {
+			continue
+		}
+		switch bo.Op {
+		case token.GEQ, token.GTR, token.LSS, token.LEQ:
+		default:
+			continue
+		}
+		fld := loadOf(bo.X)
+		if fld == nil {
+			fld = loadOf(bo.Y)
+		}
+		if fld == nil || blockReturnsError(tb) == blockReturnsError(fb) {
+			continue
+		}
+		tested, testBlock = fld, b
+	}
+	counted := false
+	if tested != nil {
+		eachInstr(pe, func(b *ssa.BasicBlock, i int, in ssa.Instruction) {
+			st, ok := in.(*ssa.Store)
+			if !ok || intField(st.Addr) != tested {
+				return
+			}
+			if bo, ok := st.Val.(*ssa.BinOp); ok && bo.Op == token.ADD && loadOf(bo.X) == tested {
+				counted = true
+			}
+		})
+	}
+	guardsAll := tested != nil
+	if tested != nil {
+		for _, g := range calls(pe) {
+			if !reach(g, nil)[pe] && g != pe {
+				continue
+			}
+			for _, site := range callsOf(pe, g) {
+				if !testBlock.Dominates(site.Block()) {
+					guardsAll = false
+				}
+			}
+		}
+	}
+	why := "no comparison of an integer field of the parser with a bound, with an error return on one side, was found in the expression parser"
+	if tested != nil && !counted {
+		why = "the field " + tested.Name() + " is compared with a bound but never incremented in the expression parser"
+	} else if tested != nil && !guardsAll {
+		why = "the comparison of " + tested.Name() + " with its bound does not come before every call back into the parser"
+	}
+	c.check(tested != nil && counted && guardsAll, "C01-DEPTH", "Parser.ParseExpression", "nesting depth counted against a bound", pe.Pos(),
+		"the expression parser counts its activations and returns an error beyond a bound, before it calls back into the parser",
+		"the parser recurses once per nesting level of the text with no bound ("+why+"): a text of a million opening parentheses is parsed until the Go stack limit, a fatal error that kills the host")
+}
